@@ -985,6 +985,27 @@ class Sim:
         op = n['op']
         rec = n.get('record', '')
         argx = [self.ev(a) for a in n['args']]
+        if rec and is_atomic_record(rec) and op in ('++', '--', '+=', '-=', '&=', '|=', '^=', '=') and argx:
+            # the operator forms of the atomic read-modify-write operations (sequentially consistent):
+            # ++a / a++ / a += v ... are fetch_add(1) / fetch_add(v) ..., a = v is store(v)
+            opath = self.lv_path(argx[0])
+            line = n.get('line')
+            base = {'kind': 'atomic', 'obj': opath, 'line': line, 'site': '%s@%d' % (self.cur_fn['key'], n.get('id', 0)), 'file': self.cur_fn['file'],
+                    'in_spin': self.spin_depth > 0, 'orders': ['seq_cst']}
+            if op == '=':
+                v = self.rv(argx[1])
+                base.update(op='store', value=v)
+                self.event(base)
+                return v
+            m_ = {'++': 'fetch_add', '--': 'fetch_sub', '+=': 'fetch_add', '-=': 'fetch_sub', '&=': 'fetch_and', '|=': 'fetch_or', '^=': 'fetch_xor'}[op]
+            v = C(1, 64) if op in ('++', '--') else self.rv(argx[1])
+            r = self.new_sym('%s@%s' % (m_, line))
+            base.update(op=m_, value=v, result=r)
+            self.event(base)
+            if op in ('++', '--') and len(argx) > 1:
+                return r                      # postfix: the old value
+            sym = {'fetch_add': '+', 'fetch_sub': '-', 'fetch_and': '&', 'fetch_or': '|', 'fetch_xor': '^'}[m_]
+            return mk_op(sym, r, v, 64)
         if rec and is_atomic_record(rec):
             raise AnalysisBroken('%s:%s: operator %s on an atomic object is not a recognised idiom'
                                  % (self.cur_fn['file'], n.get('line'), op))
